@@ -115,6 +115,10 @@ pub fn install() -> Arc<Shared> {
             std::panic::set_hook(Box::new(move |info| {
                 let role = ROLE.with(|r| r.get());
                 let msg = format!("{info}").replace('\n', " ");
+                if std::env::var("LSPSIM_BACKTRACE").is_ok() {
+                    // debugging aid: where did an actor panic
+                    eprintln!("PANIC {msg}\n{}", std::backtrace::Backtrace::force_capture());
+                }
                 if role == Role::Worker || role == Role::Dispatcher {
                     if let Ok(mut g) = sh2.m.lock() {
                         g.panics.push(format!("{}: {}", if role == Role::Worker { "compile worker" } else { "handler" }, msg.chars().take(300).collect::<String>()));
